@@ -124,6 +124,7 @@ Inductive cond :=
 | CTruth (o : operand).                      (* a bare attribute used as condition *)
 Record query := {
   q_the : bool;                    (* the(...) instead of an(...) *)
+  q_setof : bool;                  (* set_of([sel], ...) instead of entity(sel, ...) *)
   q_sel : Z;                       (* selected variable *)
   q_vars : list (Z * Z);           (* variables with their types; the selected one first *)
   q_cond : option cond
